@@ -114,19 +114,41 @@ PROPS = {
     },
     "C05": {
         "harness": "c05", "level": "proof", "category": "proof", "design_ref": "DESIGN.md 5/C05, 4.6, 2.3", "translators": ["prange"],
-        "technique": "Lean 4 proof (schedule independence of non-interfering loops) + decide over per-iteration memory footprints regenerated from the source + bit-for-bit repetition",
+        "technique": "Lean 4 proof (schedule independence of non-interfering loops) + decide over per-iteration memory footprints regenerated from the source + interpreter-mode footprint recorder that checks the translator's ownership classes against every element access of every prange iteration on every run + bit-for-bit repetition",
         "text": "Lean proves once that a prange loop whose iterations touch only rows they own yields the sequential result under every "
                 "interleaving (schedule_independent, schedules_agree: all merges, any number of iterations); translate_prange.py regenerates "
                 "on every run the read/write/mutator/reduction footprint of one iteration of every prange loop in the package and Lean "
-                "`decide`s that every loop on the build/prepare/query/update paths is non-interfering; seeded histories are repeated under "
-                "fixed thread counts and compared bit-for-bit (graph, generator states, search graph, answers) after every step",
+                "`decide`s that every loop on the build/prepare/query/update paths is non-interfering; the translator's ownership contract "
+                "(an effect classified loopVar / guardedMod / csrSeg / privateAlloc touches only locations no other iteration touches) is "
+                "validated dynamically on every run: harness/footprint_trace.py runs the real library in interpreter mode "
+                "(NUMBA_DISABLE_JIT, child process) through an in-memory rewrite of every prange loop (same numbering as Gen/Prange.lean) "
+                "that replaces every array, tuple of arrays and list visible to the loop body (arguments, locals allocated before the loop, "
+                "closure variables) by a recording view of the same memory, logs every element read and written (by address, so aliases "
+                "and overlapping views agree; also inside callees: heap pushes, siftdown, tau_rand, distance kernels) under the running "
+                "iteration, and requires W(i) ∩ W(j) = ∅ and W(i) ∩ R(j) = ∅ for all iterations i ≠ j of every loop execution, on tiny dense "
+                "and CSR histories (build with/without trees, low_memory both, prepare with diversify / diversify_csr / degree_prune, "
+                "serial and parallel batch queries, update, init_graph, score_tree); a conflict in a loop the table calls owned is a "
+                "correspondence failure and triggers the repetition search on full-size histories with the same features; loops "
+                "exercised / not reached and the numbers of iterations and element accesses are listed in the evidence; the recorder "
+                "checks itself on synthetic racy and owned loops and against a plain interpreter-mode run (same results) every time; "
+                "seeded histories are repeated under fixed thread counts and compared bit-for-bit (graph, generator states, search "
+                "graph, answers) after every step",
         "note": TB + "the footprint translator (ast walk with alias resolution, guard domination, CSR row segments, inter-procedural mutator "
-                     "summaries; conservative: unclassifiable effects are `shared`) and its contract that owned classes denote rows no other "
-                     "iteration touches; numba's prange executes some merge of the iterations; real interleavings are only sampled",
-        "explanation": "general theorem + decide on Gen/Prange.lean; repetition of seeded histories under thread counts 2..16",
+                     "summaries; conservative: unclassifiable effects are `shared`); its contract that owned classes denote rows no other "
+                     "iteration touches is no longer only trusted: it is checked on every run by the interpreter-mode recorder, for the "
+                     "inputs and loops that recorder reaches (all 16 index loops today; the evidence lists any loop not reached). What "
+                     "the recorder cannot show: the interleavings the OS scheduler really produces (it observes ownership, the Lean theorem "
+                     "carries the schedule quantifier; repetition under thread counts only samples them), loops or branches its tiny "
+                     "scenarios do not reach, scalar accumulators (`n_changes +=`: the int/float reduction classes stay the translator's), "
+                     "module-level constant arrays, accesses inside numpy ufunc / C internals below whole-operand granularity, and any "
+                     "difference between numba-compiled and interpreted execution of the same source; numba's prange executes some merge "
+                     "of the iterations",
+        "explanation": "general theorem + decide on Gen/Prange.lean + dynamic validation of the table's ownership classes (interpreter-mode "
+                       "element-level footprint recorder, every run); repetition of seeded histories under thread counts 2..16",
         "assumptions": ["numba prange runs the iterations' operations in some interleaving that preserves each iteration's own order",
                         "indptr arrays are monotone (CSR row segments are disjoint)", "metric kernels do not mutate their arguments",
-                        "integer += reductions in prange are exact and commutative"],
+                        "integer += reductions in prange are exact and commutative",
+                        "compiled and interpreted execution of a kernel touch the same array elements (the recorder observes the interpreter)"],
     },
     "C06": {
         "harness": "c06", "level": "proof", "category": "proof", "design_ref": "DESIGN.md 5/C06, 2.3", "translators": ["tables"],
